@@ -14,6 +14,7 @@ import Proofs.DmrServer
 import Proofs.DmrDemo
 import Proofs.DmrLookup
 import Proofs.DmrQuote
+import Proofs.DmrServerDemo
 namespace Pydap.C11
 open Pydap Pydap.Dmr
 
@@ -155,11 +156,20 @@ def srvDtype (v : SrvVar) : Str := srvDtypeOf v.kind v.dtypeName
 
 theorem C11_server_dtype_table : ∀ d ∈ numericDtypes, srvDtypeOf d.1 d.2.1.toList = d.2.2.toList := by decide
 
+/-- a served attribute whose values are of one kind (all integers — Python ints, numpy integers of any width —, all
+    floats, or all text) is written as a well-formed declaration: its `type` is a DAP4 type of that kind
+    (`_attribute_type`, fix abef005) and every integer's `str()` is a decimal text `int()` reads back -/
+theorem C11_server_attr_ok (a : SrvAttr) (h : a.homog) : (srvAttrSpec a).ok := srvAttr_ok a h
+
 /-- **Server round trip**: for every served dataset — groups nested to any depth, each with its own dimensions,
-    variables of the ten numeric types anywhere, variables and groups in any `children()` order — whose names are
-    plain, whose `var.dims` name declared dimensions of the extents of its data and whose fully qualified names are
-    distinct: parsing the DMR the server writes yields exactly the served variables, keyed by group path, each
-    with its own kind and width, its dimension names and the shape of its data. -/
+    variables of the ten numeric types anywhere, variables and groups in any `children()` order, **every variable
+    with any attributes and any Maps** — whose names are `goodName`s (groups, variables) / free of `/` (dimensions),
+    whose `var.dims` name declared dimensions of the extents of its data, whose attributes are well-formed
+    (`C11_server_attr_ok`: values of one kind; distinct names — they are dict keys) and whose fully qualified names
+    are distinct: parsing the DMR the server writes yields exactly the served variables, keyed by group path, each
+    with its own kind and width, its dimension names, the shape of its data, **its Maps, and its attributes under
+    their names with their values** (integers as integers, floats through `float(str(value))`, text as text; one
+    value comes back as a scalar, several as a list: `srvExpect`). -/
 theorem C11_server_roundtrip (name : Str) (dims : List (Str × Nat)) (kids : SrvTree)
     (hty : ∀ pv ∈ srvVars [] kids, ∃ d ∈ numericDtypes, pv.2.kind = d.1 ∧ pv.2.dtypeName = d.2.1.toList)
     (hok : (dimsSpec dims (srvSpec kids)).ok) (hres : refsResolve (dimsSpec dims (srvSpec kids)))
@@ -177,6 +187,27 @@ theorem C11_server_roundtrip (name : Str) (dims : List (Str × Nat)) (kids : Srv
   rw [e, hk, hn, h1]; rfl
 
 /-! ### non-vacuity -/
+
+example : (srvVars [] srvDemo).map (fun pv => srvExpect (srvDtype pv.2) pv.1 pv.2) =
+    [⟨"x".toList, "x".toList, none, ">i2".toList, ["/x".toList], [2], [some "/x".toList, some "/x".toList],
+      [("rng".toList, .many [.int (-1), .int 2]), ("flag".toList, .one (.int 200)),
+       ("scale".toList, .one (.float "1.5".toList)), ("t".toList, .one (.str "a<b&c".toList))]⟩] := by decide
+example : parseVars (renderServer "d".toList [("x".toList, 2)] srvDemo)
+    = .ok ((srvVars [] srvDemo).map fun pv => srvExpect (srvDtype pv.2) pv.1 pv.2) :=
+  C11_server_roundtrip _ _ _
+    (by intro pv hpv; simp [srvVars, srvDemo] at hpv; subst hpv; exact ⟨('i', "int16", ">i2"), by decide, rfl, rfl⟩)
+    srvDemo_ok
+    (by
+      intro pv hpv fq sz hm
+      simp only [srvDemo, srvSpec, dimsSpec, specVars, List.mem_singleton] at hpv
+      subst hpv
+      simp only [srvVarSpec, List.map_cons, List.map_nil, List.mem_singleton, SDim.named.injEq] at hm
+      obtain ⟨rfl, rfl⟩ := hm
+      exact ⟨([], "x".toList, 2), by simp [dimsSpec, srvSpec, srvDemo, declDims], by decide, rfl⟩)
+    (by unfold distinctVars; decide) (by unfold distinctDims; decide)
+example : SrvAttr.homog ⟨"rng".toList, [.int false 3 (-1), .int false 3 2]⟩ :=
+  Or.inl (by intro v hv; simp at hv; rcases hv with rfl | rfl <;> exact ⟨_, _, _, rfl⟩)
+
 
 example : ∀ d ∈ [SDim.named "/x".toList 3, .anon 5], ∀ fq s, d = .named fq s →
     dictGet [("x".toList, (3 : Int)), ("/g/y".toList, 2)] (dimKey fq) = some s := by
